@@ -5,9 +5,11 @@ pub mod common;
 pub mod c14;
 pub mod c16;
 pub mod c17;
+pub mod c18;
+pub mod c19;
 
 pub fn all() -> Vec<&'static dyn Scenario> {
-    vec![&c14::C14, &c16::C16, &c17::C17]
+    vec![&c14::C14, &c16::C16, &c17::C17, &c18::C18, &c19::C19]
 }
 
 pub fn find(id: &str) -> Option<&'static dyn Scenario> {
